@@ -117,7 +117,7 @@ func (fr *Frame) evalClause(src string, env *Env) string {
 		if strings.HasPrefix(body, "{") {
 			if i := strings.Index(body, "}"); i > 0 {
 				for _, p := range strings.Split(body[1:i], ";") {
-					pats = append(pats, fr.evalExpr(strings.TrimSpace(p), env.with(binds)).T)
+					pats = append(pats, patternTerm(fr.evalExpr(strings.TrimSpace(p), env.with(binds)).T))
 				}
 				body = strings.TrimSpace(body[i+1:])
 			}
@@ -156,6 +156,56 @@ func (fr *Frame) evalClause(src string, env *Env) string {
 		return "(not " + fr.evalClause(strings.TrimSpace(src[1:]), env) + ")"
 	}
 	return fr.evalExpr(src, env).T
+}
+
+// patternTerm makes a term usable as an E-matching pattern: a map read "(ite has (select (select V m) k) zero)"
+// is represented by its select subterm ('if' cannot occur in patterns).
+func patternTerm(t string) string {
+	for strings.HasPrefix(t, "(ite ") {
+		args := sexprArgs(t)
+		if len(args) != 4 {
+			break
+		}
+		t = args[2]
+	}
+	return t
+}
+
+// sexprArgs splits "(f a b c)" into ["f" "a" "b" "c"] at depth 1.
+func sexprArgs(t string) []string {
+	if len(t) < 2 || t[0] != '(' {
+		return nil
+	}
+	var out []string
+	depth, start := 0, -1
+	for i := 1; i < len(t)-1; i++ {
+		switch t[i] {
+		case '(':
+			if depth == 0 && start < 0 {
+				start = i
+			}
+			depth++
+		case ')':
+			depth--
+			if depth == 0 {
+				out = append(out, t[start:i+1])
+				start = -1
+			}
+		case ' ':
+			if depth == 0 && start >= 0 {
+				out = append(out, t[start:i])
+				start = -1
+			}
+		default:
+			if depth == 0 && start < 0 {
+				start = i
+			}
+		}
+	}
+	if start >= 0 {
+		out = append(out, t[start:len(t)-1])
+	}
+	return out
 }
 
 func (fr *Frame) evalExpr(src string, env *Env) Val {
@@ -284,6 +334,11 @@ func (fr *Frame) tr(e ast.Expr, env *Env) Val {
 		if v, ok := fr.ghost[x.Name]; ok && !env.noLocals {
 			return v
 		}
+		if x.Name == "iterpos" && env.loopOrd > 0 {
+			if t, ok := env.st.heap[fr.loopIter[env.loopOrd]]; ok {
+				return Val{t, types.Typ[types.Int]}
+			}
+		}
 		if strings.HasPrefix(x.Name, "iterpos") {
 			n, _ := strconv.Atoi(x.Name[len("iterpos"):])
 			if t, ok := env.st.heap[fr.iterKeys[n]]; ok {
@@ -348,6 +403,9 @@ func (fr *Frame) tr(e ast.Expr, env *Env) Val {
 		if id, ok := x.X.(*ast.Ident); ok && strings.HasPrefix(id.Name, "iterseen") {
 			n, _ := strconv.Atoi(id.Name[len("iterseen"):])
 			key := fr.iterKeys[n]
+			if id.Name == "iterseen" && env.loopOrd > 0 {
+				key = fr.loopIter[env.loopOrd]
+			}
 			arr, ok := env.st.heap[key]
 			if !ok {
 				panic("no iterator " + id.Name)
